@@ -202,3 +202,298 @@ pub fn c18_decode_icc_header_only_profile() {
     kani::cover!(i == 39 && out[i] == b'p', "last byte of 'acsp' reproduced");
     core::mem::forget(out);
 }
+
+
+// ---- EXPERIMENTAL below (not run by any registered check): the tag-list interpreter of decode_icc.
+// Symbolic execution does not finish within 15 minutes even for one tag: the cursor position after a
+// varint is symbolic for CBMC (it cannot simplify the continuation-bit tests), so the tag loop, the
+// hand-over to the main-content interpreter and every extend_from_slice are explored at symbolic
+// offsets into the output vector. Seeded change M25 and finding F06 are therefore demonstrated natively only.
+/// Stand-ins for `Vec::push` / `Vec::extend_from_slice` on the output profile: same effect, growth
+/// replaced by an assertion that the reserved capacity (`output_size`) suffices.
+pub fn icc_push_stub<T, A: std::alloc::Allocator>(v: &mut Vec<T, A>, value: T) {
+    let len = v.len();
+    assert!(len < v.capacity(), "stub: push within the reserved capacity");
+    unsafe {
+        core::ptr::write(v.as_mut_ptr().add(len), value);
+        v.set_len(len + 1);
+    }
+}
+pub fn icc_extend_stub<T: Clone, A: std::alloc::Allocator>(v: &mut Vec<T, A>, other: &[T]) {
+    let mut i = 0;
+    while i < other.len() {
+        icc_push_stub(v, other[i].clone());
+        i += 1;
+    }
+}
+
+const SPEC_TAGS: [&[u8; 4]; 17] = [
+    b"cprt", b"wtpt", b"bkpt", b"rXYZ", b"gXYZ", b"bXYZ", b"kXYZ", b"rTRC", b"gTRC", b"bTRC", b"kTRC", b"chad", b"desc", b"chrm", b"dmnd", b"dmdd", b"lumi",
+];
+
+const TAG_DATA: usize = 8;
+const TAG_OUT: usize = 128 + 4 + 12 * 4;
+
+struct SpecTagList {
+    out: [u8; TAG_OUT],
+    len: usize,
+    err: bool,
+    main_reached: bool,
+}
+
+/// ISO/IEC 18181-1 E.4.4 tag list, on a command string of TAG_CMDS bytes (after the tag count) and
+/// TAG_DATA data bytes. `main_reached`: a command with tag code 0 ended the list (the main content
+/// would follow; outside this model).
+fn spec_tag_list<const TAG_CMDS: usize>(count_byte: u8, cmds: &[u8; TAG_CMDS], data: &[u8; TAG_DATA], output_size: u64) -> SpecTagList {
+    let mut r = SpecTagList { out: [0; TAG_OUT], len: 128, err: false, main_reached: false };
+    let mut put = |r: &mut SpecTagList, bytes: &[u8]| {
+        let mut i = 0;
+        while i < bytes.len() {
+            if r.len < TAG_OUT {
+                r.out[r.len] = bytes[i];
+            }
+            r.len += 1;
+            i += 1;
+        }
+    };
+    // count_byte < 128: a one-byte varint
+    if count_byte == 0 {
+        r.main_reached = true;
+        return r;
+    }
+    let num_tags = count_byte as u64 - 1;
+    if (output_size - 128) / 12 < num_tags {
+        r.err = true;
+        return r;
+    }
+    put(&mut r, &(num_tags as u32).to_be_bytes());
+    let mut prev_start = num_tags * 12 + 128;
+    let mut prev_size = 0u64;
+    let mut cp = 0usize; // command position
+    let mut dp = 0usize; // data position
+    // a varint of at most TAG_CMDS bytes
+    let varint = |cp: &mut usize, err: &mut bool| -> u64 {
+        let mut v = 0u64;
+        let mut shift = 0;
+        loop {
+            if *cp >= TAG_CMDS {
+                *err = true;
+                return 0;
+            }
+            let b = cmds[*cp];
+            *cp += 1;
+            v |= ((b & 127) as u64) << shift;
+            if b < 128 {
+                return v;
+            }
+            shift += 7;
+        }
+    };
+    let mut guard = 0;
+    while guard < TAG_CMDS + 1 {
+        guard += 1;
+        if cp >= TAG_CMDS {
+            return r; // commands exhausted: the profile ends here
+        }
+        let command = cmds[cp];
+        cp += 1;
+        let tagcode = command & 63;
+        if tagcode == 0 {
+            r.main_reached = true;
+            return r;
+        }
+        let mut tag = [0u8; 4];
+        if tagcode == 1 {
+            if dp + 4 > TAG_DATA {
+                r.err = true;
+                return r;
+            }
+            tag.copy_from_slice(&data[dp..dp + 4]);
+            dp += 4;
+        } else if tagcode == 2 {
+            tag = *b"rTRC";
+        } else if tagcode == 3 {
+            tag = *b"rXYZ";
+        } else if tagcode <= 20 {
+            tag = *SPEC_TAGS[(tagcode - 4) as usize];
+        } else {
+            r.err = true;
+            return r;
+        }
+        let mut e = false;
+        let start = if command & 64 != 0 { varint(&mut cp, &mut e) } else { prev_start + prev_size };
+        if e {
+            r.err = true;
+            return r;
+        }
+        let mut size = prev_size;
+        if &tag == b"rXYZ" || &tag == b"gXYZ" || &tag == b"bXYZ" || &tag == b"kXYZ" || &tag == b"wtpt" || &tag == b"bkpt" || &tag == b"lumi" {
+            size = 20;
+        }
+        if command & 128 != 0 {
+            size = varint(&mut cp, &mut e);
+            if e {
+                r.err = true;
+                return r;
+            }
+        }
+        if start + size > output_size {
+            r.err = true;
+            return r;
+        }
+        prev_start = start;
+        prev_size = size;
+        put(&mut r, &tag);
+        put(&mut r, &(start as u32).to_be_bytes());
+        put(&mut r, &(size as u32).to_be_bytes());
+        if tagcode == 2 {
+            put(&mut r, b"gTRC");
+            put(&mut r, &(start as u32).to_be_bytes());
+            put(&mut r, &(size as u32).to_be_bytes());
+            put(&mut r, b"bTRC");
+            put(&mut r, &(start as u32).to_be_bytes());
+            put(&mut r, &(size as u32).to_be_bytes());
+        } else if tagcode == 3 {
+            put(&mut r, b"gXYZ");
+            put(&mut r, &((start + size) as u32).to_be_bytes());
+            put(&mut r, &(size as u32).to_be_bytes());
+            put(&mut r, b"bXYZ");
+            put(&mut r, &((start + 2 * size) as u32).to_be_bytes());
+            put(&mut r, &(size as u32).to_be_bytes());
+        }
+    }
+    r
+}
+
+fn icc_tag_list_case<const TAG_CMDS: usize, const STREAM: usize>() {
+    const OUTPUT_SIZE: usize = 180;
+    let count_byte: u8 = kani::any();
+    kani::assume(count_byte < 128);
+    let cmds: [u8; TAG_CMDS] = kani::any();
+    let data: [u8; TAG_DATA] = kani::any();
+    let want = spec_tag_list::<TAG_CMDS>(count_byte, &cmds, &data, OUTPUT_SIZE as u64);
+    kani::assume(!want.main_reached);
+    // the table must fit the part of the profile this harness models
+    kani::assume(want.err || want.len <= TAG_OUT);
+
+    // stream: varint(output_size) varint(commands_size) commands header-residuals data
+    let mut stream = [0u8; STREAM];
+    stream[0] = (OUTPUT_SIZE & 127) as u8 | 128;
+    stream[1] = (OUTPUT_SIZE >> 7) as u8;
+    stream[2] = (1 + TAG_CMDS) as u8;
+    stream[3] = count_byte;
+    let mut i = 0;
+    while i < TAG_CMDS {
+        stream[4 + i] = cmds[i];
+        i += 1;
+    }
+    let mut i = 0;
+    while i < TAG_DATA {
+        stream[4 + TAG_CMDS + 128 + i] = data[i];
+        i += 1;
+    }
+    match decode_icc(&stream[..]) {
+        Err(e) => {
+            assert!(want.err, "a tag list the specification accepts was rejected");
+            core::mem::forget(e);
+        }
+        Ok(out) => {
+            assert!(!want.err, "a tag list the specification rejects was accepted");
+            assert!(out.len() == want.len);
+            let k: usize = kani::any();
+            kani::assume(k >= 128 && k < want.len);
+            assert!(out[k] == want.out[k]);
+            kani::cover!(want.len == 128 + 4 + 36 && cmds[0] & 63 == 3, "rXYZ/gXYZ/bXYZ triple emitted");
+            kani::cover!(want.len >= 128 + 4 + 24 && cmds[0] & 63 == 20, "lumi with implied size followed by another tag");
+            kani::cover!(cmds[0] & 63 == 1 && cmds[0] & 192 == 192, "raw tag with explicit offset and size");
+            core::mem::forget(out);
+        }
+    }
+}
+
+// @prop C18 C01
+// @tier experimental
+// @unit jxl_color::icc::decode_icc: tag-list interpreter (E.4.4) after a header with zero residuals
+// @sym the tag-count byte (< 128), 3 command bytes and 8 data bytes, all symbolic; output size 180 (concrete: it sizes the output allocation); header residuals zero
+// @bound command strings of 3 bytes after the count (one tag with explicit one-byte offset and size, or up to 3 tags with implied ones; 5 bytes in the thorough tier), at most two raw tag names; inputs in which a tag code 0 hands over to the main-content interpreter are assumed away
+// @assume stubs: Vec::push / Vec::extend_from_slice write in place and assert the capacity reserved by decode_icc suffices
+// @unwindset jxl_color::icc::decode_icc$ 0 130
+// @unwindset jxl_color::icc::decode_icc$ 1 5
+// @oblig accept/reject and every byte of the emitted tag table (count, names incl. all 19 short codes, implied and explicit offsets, implied sizes - 20 for the XYZ-type tags and lumi, else the previous size -, the rTRC/gTRC/bTRC and rXYZ/gXYZ/bXYZ triples) equal the tag-list procedure of E.4.4
+#[kani::proof]
+#[kani::unwind(12)]
+#[kani::stub(std::vec::Vec::push, icc_push_stub)]
+#[kani::stub(std::vec::Vec::extend_from_slice, icc_extend_stub)]
+pub fn c18_icc_tag_list_matches_spec() {
+    icc_tag_list_case::<3, { 3 + 1 + 3 + 128 + TAG_DATA }>();
+}
+
+// @prop C18 C01
+// @tier experimental
+// @unit jxl_color::icc::decode_icc: tag-list interpreter (E.4.4)
+// @sym as c18_icc_tag_list_matches_spec with 5 command bytes
+// @bound command strings of 5 bytes after the count
+// @assume as c18_icc_tag_list_matches_spec
+// @unwindset jxl_color::icc::decode_icc$ 0 130
+// @unwindset jxl_color::icc::decode_icc$ 1 7
+// @oblig as c18_icc_tag_list_matches_spec
+#[kani::proof]
+#[kani::unwind(12)]
+#[kani::stub(std::vec::Vec::push, icc_push_stub)]
+#[kani::stub(std::vec::Vec::extend_from_slice, icc_extend_stub)]
+pub fn c18_icc_tag_list_5_commands() {
+    icc_tag_list_case::<5, { 3 + 1 + 5 + 128 + TAG_DATA }>();
+}
+
+// @prop C18 C01
+// @tier experimental
+// @unit jxl_color::icc::decode_icc: tag offsets and sizes of any width (E.4.4)
+// @sym one tag command (any short tag code 4..=20, explicit offset, implied size), the offset a 5-byte varint whose lowest and highest 7 bits are symbolic (values k + j*2^28); output size 180
+// @bound one tag; varints of exactly 5 bytes for the offset (the widths the 3-byte harness cannot reach)
+// @assume stubs as c18_icc_tag_list_matches_spec
+// @unwindset jxl_color::icc::decode_icc$ 0 130
+// @unwindset jxl_color::icc::decode_icc$ 1 3
+// @oblig a tag whose offset + size lies beyond the announced profile size is rejected whatever the width of the number (finding F06: offsets >= 2^32 were truncated to 32 bits before the check); one inside is emitted with exactly that offset
+#[kani::proof]
+#[kani::unwind(12)]
+#[kani::stub(std::vec::Vec::push, icc_push_stub)]
+#[kani::stub(std::vec::Vec::extend_from_slice, icc_extend_stub)]
+pub fn c18_icc_tag_offset_beyond_profile_rejected() {
+    const OUTPUT_SIZE: usize = 180;
+    let tagcode: u8 = kani::any();
+    kani::assume(tagcode >= 4 && tagcode <= 20);
+    // offset = low7 + top * 2^28 as a 5-byte varint; the middle bytes are concrete continuation
+    // bytes so that the symbolic executor knows where the number ends
+    let low7: u8 = kani::any();
+    kani::assume(low7 < 128);
+    let top: u8 = kani::any();
+    kani::assume(top < 128);
+    let offset = low7 as u64 | (top as u64) << 28;
+    let tag = SPEC_TAGS[(tagcode - 4) as usize];
+    let size: u64 = if tag == b"rXYZ" || tag == b"gXYZ" || tag == b"bXYZ" || tag == b"kXYZ" || tag == b"wtpt" || tag == b"bkpt" || tag == b"lumi" { 20 } else { 0 };
+    let mut stream = [0u8; 3 + 7 + 128];
+    stream[0] = (OUTPUT_SIZE & 127) as u8 | 128;
+    stream[1] = (OUTPUT_SIZE >> 7) as u8;
+    stream[2] = 7;
+    stream[3] = 2; // one tag
+    stream[4] = tagcode | 64;
+    stream[5] = low7 + 128;
+    stream[6] = 128;
+    stream[7] = 128;
+    stream[8] = 128;
+    stream[9] = top;
+    match decode_icc(&stream[..]) {
+        Err(e) => {
+            assert!(offset + size > OUTPUT_SIZE as u64, "a tag inside the profile was rejected");
+            core::mem::forget(e);
+        }
+        Ok(out) => {
+            assert!(offset + size <= OUTPUT_SIZE as u64, "a tag beyond the announced profile size was accepted");
+            assert!(out.len() == 128 + 4 + 12);
+            assert!(out[136] == 0 && out[137] == 0 && out[138] == 0 && out[139] == offset as u8);
+            assert!(out[143] == size as u8);
+            kani::cover!(offset == 100 && size == 20, "implied size 20 inside the profile");
+            core::mem::forget(out);
+        }
+    }
+}
